@@ -62,9 +62,12 @@ func keyForPrefixedStringMapsAsKey(buf []byte, prefix string, maps ...map[string
 		buf = append(buf, prefixSplitter)
 	}
 
-	var lastKey string // last key written to the buffer
+	var (
+		lastKey string // last key written to the buffer
+		wrote   bool   // whether a key was written yet (the empty string is a valid key)
+	)
 	for _, k := range keys {
-		if len(lastKey) > 0 {
+		if wrote {
 			if k == lastKey {
 				// Already wrote this key.
 				continue
@@ -72,6 +75,7 @@ func keyForPrefixedStringMapsAsKey(buf []byte, prefix string, maps ...map[string
 			buf = append(buf, keyPairSplitter)
 		}
 		lastKey = k
+		wrote = true
 
 		buf = append(buf, k...)
 		buf = append(buf, keyNameSplitter)
